@@ -132,6 +132,33 @@ def read_itp(text):
     return out
 
 
+def read_itp_prologue(text):
+    """The lines of a molecule-type file BEFORE the first directive header, as abstract records (same shape as read_itp):
+    #ifdef / #ifndef / #else / #endif, {'k': 'define', 's': name, 'p': value tokens}, anything else that is not a
+    comment or blank -> 'malformed'.  (read_itp keeps only the list of defines of this part of the file.)"""
+    recs = []
+    for line in _logical_lines(text):
+        body, _comment = _split_comment(line)
+        if not body:
+            continue
+        if _SECTION.match(body):
+            break
+        if body.startswith('#'):
+            toks = body[1:].split()
+            directive = toks[0] if toks else ''
+            if directive in ('ifdef', 'ifndef') and len(toks) == 2:
+                recs.append(_rec(directive, toks[1]))
+            elif directive in ('else', 'endif') and len(toks) == 1:
+                recs.append(_rec(directive))
+            elif directive == 'define' and len(toks) >= 2:
+                recs.append(_rec('define', toks[1], p=toks[2:]))
+            else:
+                recs.append(_rec('malformed', body))
+        else:
+            recs.append(_rec('malformed', body))
+    return recs
+
+
 def read_top(text):
     """Parse a system topology: the #include list (in order), #defines, the [ system ] title and the
     [ molecules ] list (in order).  Included files are not opened."""
